@@ -1,12 +1,16 @@
 """C01 — q-values: calculate_protein_fdrs and row alignment vs Model/Fdr.v, Model/Results.v."""
 from .. import core
+from .pipeline_common import PipelineSuite
 from .results_common import FdrSuite, RowsSuite
 
 SUITES = [FdrSuite(), RowsSuite()]
 
 
+SUITES_EXTRA = []
+
+
 def suite_by_name(name):
-    return next(s for s in SUITES if s.name == name)
+    return next(s for s in SUITES + [PipelineSuite()] if s.name == name)
 
 
 def run(r: core.Runner):
@@ -17,3 +21,8 @@ def run(r: core.Runner):
     ]
     for s in SUITES:
         r.run_suite(s)
+    # the same guarantees through the whole inference function, for a cross-section of the shipped methods
+    ps = PipelineSuite(methods=["picked_protein_group_mq_input", "classic_protein_group", "maxquant_mq_best_picked",
+                                "savitski_mq_mult", "savitski", "razor_picked_mq_input"])
+    SUITES_EXTRA.append(ps)
+    r.run_suite(ps)
